@@ -11,6 +11,7 @@ import (
 	"time"
 
 	"gosym/interp"
+	"gosym/sym"
 )
 
 const (
@@ -19,6 +20,11 @@ const (
 )
 
 func main() {
+	if os.Getenv("GOSYM_SLOW") != "" {
+		sym.SlowLog = func(d time.Duration, extra string, n int) {
+			fmt.Fprintf(os.Stderr, "SLOW %.1fs scope=%d lines: %s\n", d.Seconds(), n, extra)
+		}
+	}
 	if len(os.Args) < 2 {
 		usage()
 	}
